@@ -283,7 +283,27 @@ impl Epoch {
                         time_scale: TimeScale::TAI,
                     };
                     // TAI = UTC + leap_seconds <=> UTC = TAI - leap_seconds
-                    prime_epoch_offset - epoch.leap_seconds(true).unwrap_or(0.0).seconds()
+                    let utc_estimate =
+                        prime_epoch_offset - epoch.leap_seconds(true).unwrap_or(0.0).seconds();
+                    // The leap second table is indexed by UTC timestamps, so the offset must be looked up with a UTC
+                    // count: in the seconds that follow a table timestamp the TAI count is already past the timestamp
+                    // although the UTC instant is still before the leap second.
+                    let estimate_as_epoch = Self {
+                        duration: utc_estimate,
+                        time_scale: TimeScale::TAI,
+                    };
+                    let leap_seconds = estimate_as_epoch.leap_seconds(true).unwrap_or(0.0);
+                    let utc_duration = prime_epoch_offset - leap_seconds.seconds();
+                    let utc_as_epoch = Self {
+                        duration: utc_duration,
+                        time_scale: TimeScale::TAI,
+                    };
+                    if utc_as_epoch.leap_seconds(true).unwrap_or(0.0) == leap_seconds {
+                        utc_duration
+                    } else {
+                        // This instant is the inserted leap second itself, which has no UTC count of its own.
+                        utc_estimate
+                    }
                 }
                 TimeScale::GPST => prime_epoch_offset - GPST_REF_EPOCH.to_tai_duration(),
                 TimeScale::GST => prime_epoch_offset - GST_REF_EPOCH.to_tai_duration(),
